@@ -9,8 +9,11 @@ open Compio.SharedFd
 
 /-! ### layer `sfd`: exact prediction of count / released / delivered / wakes / result per event -/
 
+def showLog (l : List (Nat × Nat)) : String :=
+  if l.isEmpty then "-" else ",".intercalate (l.map fun (c, w) => s!"{c}.{w}")
+
 def showSt (s : St) (r : String) : String :=
-  s!"ok c={s.count} rel={s.released} del={s.delivered} wk={s.wakes} r={r}"
+  s!"ok c={s.count} rel={s.released} del={s.delivered} wk={s.wakes} wl={showLog s.wakeLog} r={r}"
 
 def parseEv (w : List String) : Option Ev :=
   match w with
@@ -110,7 +113,7 @@ structure RtSt where
 
 def showRt (s : St) (r : String) : String :=
   let pw := (List.range s.actors.length).filter fun i =>
-    (s.role i == some (Role.closer .parked)) && s.woken.contains i
+    (s.role i == some (Role.closer .parked)) && s.wokenW.contains (i, wOf s.parkedW i)
   let pws := if pw.isEmpty then "-" else ",".intercalate (pw.map toString)
   s!"ok c={s.count} open={if s.released = 0 then 1 else 0} pw={pws} r={r}"
 
@@ -119,6 +122,15 @@ def isHandle (t : RtSt) (h : Nat) : Bool :=
 
 def rtEvent (t : RtSt) (w : List String) : Option (RtSt × String) :=
   match w with
+  | ["poll", c, wk] =>
+    match c.toNat?, wk.toNat? with
+    | some i, some wk =>
+      (run t.s [.setWaker i wk, .poll i]).map fun s' =>
+        let r := match s'.role i with
+          | some (Role.closer .parked) => "pending"
+          | _ => "ready"
+        ({ t with s := s' }, showRt s' r)
+    | _, _ => none
   | [k, n] =>
     (n.toNat?).bind fun i =>
       if k = "clone" then
@@ -138,7 +150,7 @@ def rtEvent (t : RtSt) (w : List String) : Option (RtSt × String) :=
       else if k = "close" then
         if isHandle t i then (step t.s (.close i)).map fun s' => ({ t with s := s' }, showRt s' "-") else none
       else if k = "poll" then
-        (step t.s (.poll i)).map fun s' =>
+        (run t.s [.setWaker i 0, .poll i]).map fun s' =>
           let r := match s'.role i with
             | some (Role.closer .parked) => "pending"
             | _ => "ready"
@@ -265,6 +277,20 @@ def stepLine (m : Mode) (line : String) : Mode × String :=
     match prEvent t w with
     | some (t', o) => (.pr t', o)
     | none => (.pr t, "rej")
+  | .sfd s, ["poll", c, wk] =>
+    match c.toNat?, wk.toNat? with
+    | some c, some wk =>
+      match run s [.setWaker c wk, .poll c] with
+      | some s' => (.sfd s', showSt s' (resultOf s' (.poll c)))
+      | none => (.sfd s, "rej")
+    | _, _ => (.sfd s, "rej")
+  | .sfd s, ["poll", c] =>
+    match c.toNat? with
+    | some c =>
+      match run s [.setWaker c 0, .poll c] with
+      | some s' => (.sfd s', showSt s' (resultOf s' (.poll c)))
+      | none => (.sfd s, "rej")
+    | none => (.sfd s, "rej")
   | .sfd s, w =>
     match parseEv w with
     | some e =>
